@@ -335,6 +335,9 @@ func (a *Bool) vis(kind string, arg int64) (*Sched, *thread) {
 	s.yield(t, Op{Tid: t.id, Kind: kind, Loc: name, Arg: arg})
 	return s, t
 }
+// Peek reads the value without a scheduling point and without a trace entry (harness monitors only).
+func (a *Bool) Peek() bool { return a.v.Load() }
+
 func (a *Bool) Load() bool {
 	s, t := a.vis("load", 0)
 	r := a.v.Load()
